@@ -17,6 +17,7 @@ from .. import gen
 from ..engine import (
     AUTOMATIONS,
     AUTO_KIND,
+    Discard,
     CAN,
     FULL_MASK,
     Interp,
@@ -105,6 +106,8 @@ def run_one(cfg, tape, eager_mask=None):
                 state = it.state
                 out = it.run()
                 return out, state, None, it
+            except Discard:
+                return 'discard', None, None, it
             except Exception as e:  # noqa: BLE001
                 if not is_engine_exception(e):
                     raise
@@ -120,7 +123,7 @@ FUZZ = dict(
 
 def budget(tier):
     if tier == 'quick':
-        return dict(examples=3200, wall=100)
+        return dict(examples=6000, wall=100)
     return dict(examples=80000, wall=1500)
 
 
@@ -131,6 +134,17 @@ def strategy(tier):
         gen.cases(**common),
         gen.cases(mask_strategy=st.integers(1, FULL_MASK - 1),
                   short_bias=True, **common),
+        # full stud tables (and custom hole+board streets) played to the end:
+        # the deck runs short and the fall-back deals shared cards
+        gen.cases(mask_strategy=st.integers(1, FULL_MASK - 1),
+                  games=('F7S', 'F7S8', 'FR'), custom=True,
+                  custom_families=('mixed', 'stud'), min_players=7,
+                  profiles=(5, 6), rake=False, **common),
+        # raked tables where most hands are folded out: small pots that the
+        # rake (100 %, or a flat drop) may take whole
+        gen.cases(mask_strategy=st.integers(1, FULL_MASK - 1),
+                  profiles=(3, 3, 0), rake='always', custom=False,
+                  **common),
     ]
     return st.one_of(*pools)
 
@@ -143,9 +157,27 @@ def check(case, stats):
             and NOT_ENOUGH_CARDS in str(a_exc):
         stats.count('discard')
         return []
+    if a_out == 'discard':
+        stats.count('discard')
+        return []
     b_out, b, b_exc, b_it = run_one(cfg, case['tape'], eager_mask=mask)
     stats.count('outcome:' + a_out + '/' + b_out)
+    if b_out == 'discard':
+        stats.count('discard')
+        return []
     out = []
+    # in the automated run the user is never left with a step that is
+    # automated: whatever the harness had to perform itself is not in S
+    if a_it is not None:
+        auto_kinds = {AUTO_KIND[x] for j, x in enumerate(AUTOMATIONS)
+                      if mask >> j & 1}
+        left = [(k, args) for k, args in a_it.steps if k in auto_kinds]
+        if left:
+            out.append(V(ID, 'automated_step_left_to_user', left[0][0],
+                         f'with S={sorted(auto_kinds)} the engine left'
+                         f' {left[0][0]}{left[0][1]!r} to the user (step'
+                         f' {a_it.steps.index(left[0])} of {len(a_it.steps)})'))
+            return out
     if a is None or b is None:
         if (a is None) != (b is None) or (
                 a_exc is not None and b_exc is not None
